@@ -556,6 +556,7 @@ C01.defined: wherever constraints_and_type_name renders a component with the `<P
     fixed_values(m, ctx, "C01.fixed");
     instance_of(m, ctx, "C01.instanceof");
     collisions(m, ctx, "C01.collide");
+    list_values(m, ctx, "C01.listvalue");
     // two enumerals with one number are two variants with one discriminant (E0081): the numbering analysis lives with C14
     borrow(ctx, "C14", "C14.num", "C01.discr", &mut |sub| crate::rules::c14::run(m, sub));
     // names that are referred to are the names that are generated (shared with C02.defname)
@@ -903,6 +904,76 @@ pub fn collisions(m: &Model, ctx: &mut Ctx, rule: &str) {
         let f = m.fns.iter().find(|f| f.name == "to_rust_const_case");
         ctx.violate(rule, "distinct-names-one-identifier", f.map(|f| f.file.as_str()).unwrap_or(""), f.map(|f| f.line).unwrap_or(0),
             &format!("distinct ASN.1 names are given one Rust identifier ({}), and nothing between the manglers and the emitted module notices two items of one name: `ub-localeContextSyntax INTEGER ::= 128  ub-locale-context-syntax INTEGER ::= 64` (X.520 UpperBounds) compiles without a warning to two constants `UB_LOCALE_CONTEXT_SYNTAX` (E0428)", colliding.join("; ")));
+    }
+}
+
+/// Values of a *named* SEQUENCE OF / SET OF type. `Tt ::= SET OF BOOLEAN` is declared `struct Tt(pub SetOf<AnonymousTt>)`
+/// with a wrapper struct for the element (generate_sequence_or_set_of is evaluated and the element type read from what it
+/// hands to its template); a value `vt Tt ::= { TRUE }` is rendered by value_to_tokens (evaluated on a list value) as
+/// `Tt(alloc::vec![true])`. Unless the rendering wraps the elements in the declared element type (and builds a SetOf for
+/// SET OF), the value does not type-check.
+pub fn list_values(m: &Model, ctx: &mut Ctx, rule: &str) {
+    let Some(g) = anchor_fn(m, ctx, rule, Some("Rasn"), "generate_sequence_or_set_of", None) else { return };
+    let Some(vt) = anchor_fn(m, ctx, rule, Some("Rasn"), "value_to_tokens", None) else { return };
+    let consts = const_resolver(m);
+    let captured = std::cell::RefCell::new(None::<(String, String)>);
+    let sym = |v: &Val| match v { Val::Sym(s) | Val::Str(s) => s.clone(), o => o.show() };
+    let hook = |_: &Evaluator, name: &str, a: &[Val]| -> Option<Result<Val, String>> {
+        match name {
+            ".to_rust_title_case" => Some(Ok(Val::Sym("Tt".into()))),
+            ".generate_type" => Some(Ok(Val::Ctor("Ok".into(), vec![Val::Sym("<anonymous item>".into())], BTreeMap::new()))),
+            ".format_range_annotations" | ".join_annotations" => Some(Ok(Val::Ctor("Ok".into(), vec![Val::Sym(String::new())], BTreeMap::new()))),
+            ".format_tag" | ".format_comments" | ".format_identifier_annotation" => Some(Ok(Val::Sym(String::new()))),
+            ".to_token_stream" | ".to_string" | ".clone" | ".as_ref" if a.len() == 1 => Some(Ok(a[0].clone())),
+            "sequence_or_set_of_template" => {
+                *captured.borrow_mut() = Some((a.first().map(|v| v.show()).unwrap_or_default(), a.get(4).map(sym).unwrap_or_default()));
+                Some(Ok(Val::Sym("<template>".into())))
+            }
+            _ => None,
+        }
+    };
+    let ev = Evaluator { consts: &consts, call_hook: &hook, inline: None };
+    let named = |n: &str, fields: Vec<(&str, Val)>| Val::Ctor(n.to_string(), vec![], fields.into_iter().map(|(k, v)| (k.to_string(), v)).collect::<BTreeMap<_, _>>());
+    let boolean = Val::Ctor("Boolean".into(), vec![named("Boolean", vec![("constraints", Val::List(vec![]))])], BTreeMap::new());
+    let gp = g.sig.inputs.iter().filter_map(|a| match a { syn::FnArg::Typed(t) => Some(tok(&t.pat)), _ => None }).next().unwrap_or("tld".into());
+    for kind in ["SequenceOf", "SetOf"] {
+        ctx.oblige(rule, &format!("value-of-named:{}", kind), true);
+        let list = Val::Ctor(kind.into(), vec![named("SequenceOrSetOf", vec![("element_type", boolean.clone()), ("element_tag", Val::none()), ("constraints", Val::List(vec![])), ("is_recursive", Val::Bool(false))])], BTreeMap::new());
+        let tld = named("ToplevelTypeDefinition", vec![("name", Val::Str("Tt".into())), ("comments", Val::Str(String::new())), ("tag", Val::none()), ("parameterization", Val::none()), ("module_header", Val::none()), ("ty", list)]);
+        *captured.borrow_mut() = None;
+        let mut env = Env::new();
+        env.insert("self".into(), Val::ctor("Rasn"));
+        env.insert(gp.clone(), tld);
+        if let Err(e) = ev.eval_fn_body(&g.block, &mut env) {
+            ctx.fail_closed(rule, &format!("generate_sequence_or_set_of ({}): {}", kind, e));
+            continue;
+        }
+        let Some((is_set, elem_ty)) = captured.borrow().clone() else {
+            ctx.fail_closed(rule, &format!("generate_sequence_or_set_of ({}): the template call was not reached", kind));
+            continue;
+        };
+        // the value side
+        let vps: Vec<String> = vt.sig.inputs.iter().filter_map(|a| match a { syn::FnArg::Typed(t) => Some(tok(&t.pat)), _ => None }).collect();
+        let mut inl = inline_all(m, &["Rasn"]);
+        inl.retain(|k, _| k == ".value_to_tokens");
+        let ev2 = Evaluator { consts: &consts, call_hook: &crate::eval::no_hook, inline: Some(&inl) };
+        let mut env = Env::new();
+        env.insert("self".into(), Val::ctor("Rasn"));
+        env.insert(vps.first().cloned().unwrap_or("value".into()), Val::Ctor("LinkedArrayLikeValue".into(), vec![Val::List(vec![Val::Ctor("Boolean".into(), vec![Val::Bool(true)], BTreeMap::new())])], BTreeMap::new()));
+        env.insert(vps.get(1).cloned().unwrap_or("type_name".into()), Val::none());
+        let text = match ev2.eval_fn_body(&vt.block, &mut env) {
+            Ok(Val::Ctor(ok, p, _)) if ok == "Ok" => p.first().map(sym).unwrap_or_default(),
+            Ok(Val::Ctor(e, _, _)) if e == "Err" => continue, // refused: a warning, nothing emitted
+            Ok(o) => { ctx.fail_closed(rule, &format!("value_to_tokens on a list value: {}", o.show().chars().take(80).collect::<String>())); continue; }
+            Err(e) => { ctx.fail_closed(rule, &format!("value_to_tokens on a list value: {}", e)); continue; }
+        };
+        let wrapper = elem_ty.starts_with("Anonymous") || elem_ty.contains("Anonymous");
+        let set = is_set == "true";
+        if (wrapper && !text.contains("Anonymous")) || (set && !text.contains("SetOf")) {
+            ctx.violate(rule, "value-of-named-list-type", &vt.file, vt.line,
+                &format!("`Tt ::= {} BOOLEAN` is declared `struct Tt(pub {}<{}>)`; a value of it (`vt Tt ::= {{ TRUE }}`, a DEFAULT `{{ TRUE }}` of a component of type Tt) is rendered `Tt({})`: {}{} — mismatched types, no warning", if set { "SET OF" } else { "SEQUENCE OF" }, if set { "SetOf" } else { "SequenceOf" }, elem_ty, text,
+                    if wrapper { "the elements are not wrapped in the declared element type" } else { "" }, if set { "; a SetOf is not a Vec" } else { "" }));
+        }
     }
 }
 
